@@ -654,6 +654,24 @@ func (e *Engine) assumeCond(st *State, cond ssa.Value, outcome bool) {
 			}
 			return
 		}
+		// string compared with the empty string: a fact about its length
+		if (c.Op == token.EQL || c.Op == token.NEQ) && isSliceLike(c.X.Type()) {
+			var sv ssa.Value
+			if k, ok := c.Y.(*ssa.Const); ok && k.Value != nil && k.Value.Kind() == constant.String && constant.StringVal(k.Value) == "" {
+				sv = c.X
+			} else if k, ok := c.X.(*ssa.Const); ok && k.Value != nil && k.Value.Kind() == constant.String && constant.StringVal(k.Value) == "" {
+				sv = c.Y
+			}
+			if sv != nil {
+				l := e.lenExpr(st, sv)
+				if (c.Op == token.EQL) == outcome {
+					st.AssumeEq(l)
+				} else {
+					st.Assume(l.AddConst(-1))
+				}
+				return
+			}
+		}
 		// pointer / interface comparisons with nil
 		if c.Op == token.EQL || c.Op == token.NEQ {
 			var x ssa.Value
